@@ -207,13 +207,61 @@ def mhseq_level(ctx):
     ctx.extra["mhseq_cases"] = {"set_sequences_in_folder": len(wcases), "_get_sequences_update_seen": len(ucases)}
 
 
+def emptied_restart(ctx):
+    """A mailbox is emptied completely (every sequence becomes empty at once), the server restarts, mail arrives again under
+    the freed numbers - one through an MH tool that lists it in `unseen`, one procmail-style (the file only): the new
+    messages must show, to sessions and in .mh_sequences, nothing of the messages that had their numbers before."""
+    import re
+    n = 0
+    for box in (("inbox", "work") if ctx.thorough else ("inbox",)):
+        for restart in (True, False):
+            w = W.World(seed=ctx.rng.randrange(1 << 30))
+            try:
+                w.session("A")
+                w.cmd("A", "a CREATE work")
+                w.deliver(box, 4, unseen=True)
+                w.cmd("A", f"a SELECT {box}")
+                w.cmd("A", "a STORE 1:2 +FLAGS (\\Flagged \\Answered kw1)")
+                w.cmd("A", "a STORE 2:4 +FLAGS (\\Seen)")
+                w.cmd("A", "a STORE 1:4 +FLAGS (\\Deleted)")
+                w.cmd("A", "a EXPUNGE")
+                w.cmd("A", "a UNSELECT")
+                if restart:
+                    w.restart()
+                    w.session("A")
+                k1 = w.deliver(box, 1, unseen=True)[0]
+                w.cmd("A", f"a SELECT {box}")
+                w.cmd("A", "a STORE 1 +FLAGS (\\Seen)")
+                k2 = k1 + 1
+                (w.root / box / str(k2)).write_bytes(W.make_msg(5000 + n))          # the file only
+                w.bump_mtime(box)
+                w.settle(25)
+                w.cmd("A", "a NOOP")
+                out = b"".join(w.cmd("A", "a FETCH 1:* (FLAGS)"))
+                shown = {int(a): b.decode().split() for a, b in re.findall(rb"\* (\d+) FETCH \(FLAGS \(([^)]*)\)", out)}
+                raw = mboxx.read_mh_sequences(str(w.root / box / ".mh_sequences"))
+                n += 1
+                ctx.count({"emptied_then_mail_again": box, "restart": restart}, nontrivial=True)
+                stale = {nm: ks for nm, ks in raw.items() if nm in ("flagged", "replied", "Deleted", "kw1") and set(ks) & {k1, k2}}
+                leaked = {p: [f for f in fl if f in ("\\Flagged", "\\Answered", "\\Deleted", "kw1")] for p, fl in shown.items()}
+                if stale or any(leaked.values()) or len(shown) != 2:
+                    ctx.violation("mail that arrives in an emptied mailbox inherits flags of the messages that had its numbers "
+                                  f"(restart in between: {restart}): sessions are shown {shown}, .mh_sequences says {raw}",
+                                  {"mailbox": box, "restart": restart, "new_message_numbers": [k1, k2], "flags_shown": shown,
+                                   ".mh_sequences": raw})
+            finally:
+                w.close()
+    ctx.extra["emptied_restart_cases"] = n
+
+
 def run(ctx):
     ctx.coverage["rule"] = ("histories of 45/70 commands with an external MH agent delivering 1-3 messages (70% listed in "
                             "`unseen`) between IMAP commands from selected, idling and unselected sessions, management-task "
                             "polls, flag changes and expunges (freed message numbers get reused by later deliveries); "
                             "non-trivial = a delivery happened after an expunge in the same mailbox (number reuse) or while a "
                             "session was idling. Plus: histories with deliveries the server cannot see yet (mtime unchanged), and deliveries "
-                            "injected at the entry of the Mailbox method that carries out a command (STORE/FETCH/COPY/EXPUNGE/MOVE/APPEND)")
+                            "injected at the entry of the Mailbox method that carries out a command (STORE/FETCH/COPY/EXPUNGE/MOVE/APPEND); a mailbox "
+                            "emptied completely, (restart,) then mail again under the freed numbers, one of them as a bare file")
     ok = ctx.prove("Properties/C13.v")
     n = 400 if ctx.thorough else 64
     hs = mboxx.generate(ctx, n, 70 if ctx.thorough else 45, mix=MIX)
@@ -250,6 +298,7 @@ def run(ctx):
     ctx.extra["histories_with_unseen_deliveries"] = len(sh)
     midcommand_deliveries(ctx)
     mhseq_level(ctx)
+    emptied_restart(ctx)
     ctx.coq.build(["Model/MboxCmp.vo"])
     bad, _ = mboxx.compare(ctx, "c13", hs)
     report_diffs(ctx, "C13", hs, bad, "model (proved) and implementation disagree on what sessions are told about deliveries")
